@@ -1837,7 +1837,7 @@ func (in *Interp) use(n *gen.Node) (any, error) {
 		return nil, ErrUnsupported
 	}
 	sub := &Interp{V2: in.V2, Opts: in.Opts, Touched: in.Touched, Pt: in.Pt, Scripts: in.Scripts, File: n.Args[0].S,
-		Fuel: in.Fuel, Size: in.Size, Extra: in.Extra, depth: in.depth + 20, Stdout: in.Stdout}
+		Fuel: in.Fuel, Size: in.Size, Extra: in.Extra, depth: in.depth + 5, Stdout: in.Stdout}
 	sub.Trace = in.Trace
 	if sub.depth > 300 {
 		return nil, ErrFuel
